@@ -346,6 +346,40 @@ func init() {
 						return st.final("")
 					}
 				}},
+			{Name: "i: merger cycles fail (merge operand, no MergeOperator) while a writer is parked on back-pressure (MaxPreMergerBatches=1); nobody closes - every ExecuteBatch still returns",
+				Build: func() (*World, func() *Violation, func(string) []Violation) {
+					w, st := c16World(Config{Backing: "none", MinMergePct: 0.01, MaxPre: 1})
+					if w.infra != "" {
+						return w, nil, st.final
+					}
+					st.spawn("writer", func() {
+						for j, op := range []string{"S:z", "M:a", "S:k", "S:q"} {
+							op := op
+							st.call(fmt.Sprintf("ExecuteBatch#w.%d", j+1), func() (string, error) {
+								b, err := w.coll.NewBatch(4, 64)
+								if err != nil {
+									return "newbatch", err
+								}
+								if op[0] == 'M' {
+									b.Merge([]byte(op[2:]), []byte("x"))
+								} else {
+									b.Set([]byte(op[2:]), []byte("1"))
+								}
+								err = w.coll.ExecuteBatch(b, moss.WriteOptions{})
+								b.Close()
+								return "", err
+							})
+						}
+					})
+					return w, st.invariant, func(deadlock string) []Violation {
+						for _, c := range st.calls {
+							if c.returned == 0 {
+								return st.final(deadlock)
+							}
+						}
+						return st.final("")
+					}
+				}},
 			{Name: "d: after Close has returned: NewBatch, Snapshot, Get, ExecuteBatch(non-empty), ExecuteBatch(empty), NotifyMerger(sync)",
 				Build: func() (*World, func() *Violation, func(string) []Violation) {
 					w, st := c16World(Config{Backing: "store", MinMergePct: 100, MaxPre: 1})
